@@ -34,7 +34,7 @@ Expected(e) == Match(RuleOfJson(e.rule), ReqOfJson(e.req))
 \* from the two hostnames and their Public Suffix List answers (Request!Fields.thirdParty)
 DerivedThird(q) == /\ q.src # <<>>
                    /\ LET d == DomainOf(q.host, q.hostPsl) sd == DomainOf(q.src, q.srcPsl) IN sd # <<>> /\ sd # d
-ThirdOKEvent(e) == e.req.hostreq \/ e.req.thirdParty = DerivedThird(e.req)
+ThirdOKEvent(e) == e.req.hostreq \/ (e.host_ok /\ e.req.thirdParty = DerivedThird(e.req))
 Allowed == l > 0 =>
     LET e == Trace[l]
         x == Expected(e)
